@@ -13,7 +13,7 @@ from ..loader import AnalysisError, ConstInfo, FuncInfo
 from ..regexlang import Regex, included
 from ..report import Ctx
 from ..taint import Taint
-from .common import all_guards, call_name, direct_guards, norm, reachable_functions, where
+from .common import all_guards, call_name, direct_guards, factory_closure, norm, reachable_functions, where
 from .render import LOSSY_CALLS, LOSSY_METHODS, get_model
 from .wrap import LW, TH, TW, sentence_wrapper, width_wrapper
 
@@ -176,10 +176,7 @@ def check_segment_predicates(ctx: Ctx) -> None:
     """Y3: a newline of the source is significant only next to a tag."""
     repo, prog = ctx.repo, ctx.prog
     fac = repo.func(f"{TH}:add_tag_newline_handling")
-    inner = [f for f in fac.local_defs.values() if isinstance(f, FuncInfo)]
-    if not inner:
-        raise AnalysisError("enhanced wrapper of add_tag_newline_handling not found")
-    w = inner[0]
+    w = factory_closure(prog, fac)
     flow = prog.flow(w)
     # the test that starts a new segment: controls the append of the joined current segment inside the line loop
     seg_tests = []
@@ -234,7 +231,7 @@ def check_decorator_stack(ctx: Ctx) -> None:
     tn = repo.func(f"{TH}:add_tag_newline_handling")
     for q in (f"{LW}:line_wrap_to_width", f"{LW}:line_wrap_by_sentence"):
         fac = repo.func(q)
-        base = next(f for f in fac.local_defs.values() if isinstance(f, FuncInfo))
+        base = factory_closure(prog, fac)
         res: dict[bool, frozenset] = {}
         for md in (True, False):
             def atom(leaf: ast.AST, aliases: frozenset, md=md) -> bool | None:
@@ -265,7 +262,7 @@ def check_hard_break_decorator(ctx: Ctx) -> None:
     """C01: every non-last hard-break segment gets the backslash, segments are rejoined by newline."""
     repo, prog = ctx.repo, ctx.prog
     fac = repo.func(f"{LW}:_add_markdown_hard_break_handling")
-    w = next(f for f in fac.local_defs.values() if isinstance(f, FuncInfo))
+    w = factory_closure(prog, fac)
     flow = prog.flow(w)
     appends = [(n, c) for n, c in flow.all_calls() if isinstance(c.func, ast.Attribute) and c.func.attr == "append" and c.args]
     ctx.require("R-HARDBREAK", "segment appends in the hard-break decorator", len(appends), 1)
